@@ -340,8 +340,10 @@ class Parser:
         pkg, segs = self.qualified_name()
         imports = []
         while True:
+            mark = self.i
             self.skip_comments()
             if not self.is_kw("from"):
+                self.i = mark  # comments in front of the first declaration belong to that declaration
                 break
             self.adv()
             ipkg, _ = self.qualified_name()
